@@ -51,7 +51,7 @@ def c07_configs(tier):
         direct = not (sel & 1) or (enc, sel) == (0, 5)               # selections that sanitise copies themselves: called on the automata as loaded
         if direct: out.append(pair(2, 1, [0, 1], PRESAN=1, **k))     # ... and once the way the CLI does it (sanitised by the caller first)
         slow = (enc, sel, src) == (0, 5, 0)                          # also computes the simulation in the harness (which this selection ignores): minutes
-        if tier == 'thorough' or not slow:
+        if not slow:                                                 # (0,5,0): the small universes only, in both tiers - (0,5,1) runs the same library code on the large ones
             out.append(pair(1, 2, [0, 0, 2], BFREE=B6X, **k))        # 12 bits
             if (enc, sel) != (0, 0) and (enc, sel) != (0, 1):        # (bottom-up upward: known finding C07-1 for rank 2 in A)
                 out.append(pair(2, 3, [0, 0, 2], **dict(JOINT, _time=1500, **k)))    # 14 bits
@@ -64,10 +64,11 @@ def c07_configs(tier):
         heavy = (enc, sel) == (0, 5)                                 # bottom-up downward: simulation + inversion, minutes
         if tier == 'thorough' or not heavy:
             out.append(pair(1, 2, [0, 0, 2], BFREE=B6, **k))         # 12 bits: children reached by different trees
-        if tier == 'thorough':
+        if tier == 'thorough' and not slow:
             out.append(pair(1, 2, [0, 0, 2], BFREE=B8, _time=2800, **k))   # 14 bits
             out.append(pair(2, 2, [0, 1], _time=2800, **k))          # 16 bits
             out.append(pair(2, 1, [0, 1], SEED=0, PRIME=2, **k))     # 11 bits, numbering by the loader
+        if tier == 'thorough' and slow: out.append(pair(2, 1, [0, 1], SEED=0, PRIME=2, **k))
     # heap model with reuse of released addresses (the downward checkers memoise set comparisons under the addresses of macro-states)
     for (enc, sel, src) in [(1, 4, 0), (1, 6, 0), (1, 5, 1), (1, 7, 1)] + ([(0, 5, 1)] if tier == 'thorough' else []):
         k = {'ENC': enc, 'SEL': sel, 'SIMSRC': src, '_reuse': 1}
